@@ -58,6 +58,7 @@ const (
 	findingEmptyLabels   = "C18/replication-empty-labels-nil-vs-empty"
 	findingCoordStale    = "C18/coordinator-writeback-stale-persist"
 	findingRuleAPISync   = "C18/rule-api-syncs-replication-before-setrule"
+	findingRollbackRule  = "C18/replication-rollback-rule-not-persisted"
 )
 
 func TestMain(m *testing.M)   { vkit.Main(m, "C18") }
@@ -1001,8 +1002,12 @@ func runOnce(c Case) (vkit.Info, error) {
 			if r := defaultRuleJSON(); r != beforeRule {
 				return vkit.Errf("%s %s (%v) but the default placement rule changed: %s => %s", where, what, err, beforeRule, r)
 			}
-			if d := ruleServedVsStored(fx); d != "" {
-				return vkit.Errf("%s %s (%v) and afterwards %s", where, what, err, d)
+			// (a request with several rules is saved rule by rule; a failure in the middle leaves the earlier records
+			// written, which RuleManager.savePatch documents and C13 judges — only single-rule requests are held to it here)
+			if len(specs) == 1 {
+				if d := ruleServedVsStored(fx); d != "" {
+					return vkit.Errf("%s %s (%v) and afterwards %s", where, what, err, d)
+				}
 			}
 			return nil
 		}
@@ -1238,7 +1243,18 @@ func runOnce(c Case) (vkit.Info, error) {
 					}
 					if op.Kind == "replication" {
 						if d := ruleServedVsStored(fx); d != "" {
-							return info, vkit.Errf("%s: write %d of the update (to the %s storage) failed (error returned: %v) and afterwards %s", where, n, on, err, d)
+							if !(on == "config" && vkit.Known(findingRollbackRule)) {
+								return info, vkit.Errf("%s: write %d of the update (to the %s storage) failed (error returned: %v) and afterwards %s", where, n, on, err, d)
+							}
+							// known class: the roll back of the default rule after a failed Persist is served but not stored.
+							// Counted; the harness writes the served rule into the storage so that the search goes on.
+							info.Exclude(findingRollbackRule)
+							classes["known:rolled-back-rule-not-stored"] = true
+							if rc := fx.Svr.GetRaftCluster(); rc != nil {
+								if r := rc.GetRuleManager().GetRule("pd", "default"); r != nil {
+									core.NewStorage(fx.ClusterBase()).SaveRule(r.StoreKey(), r)
+								}
+							}
 						}
 					}
 					if op.Kind == "replication" && ruleOK {
@@ -1878,4 +1894,47 @@ func TestFinding_rule_api_syncs_replication_before_setrule(t *testing.T) {
 	}
 	vkit.Finding(t, findingRuleAPISync, e != nil && (a != b || ra != rb),
 		fmt.Sprintf("replication %s, default rule %s; POST /config/rule {pd/default, role bogus, count 1} => %v; replication afterwards %s (reloaded %s), default rule afterwards %s", a, ra, e, b, got[1], rb))
+}
+
+// TestFinding_replication_rollback_rule_not_persisted: placement rules enabled,
+// SetReplicationConfig(max-replicas 5) whose configuration write fails: the setter rolls the default
+// rule back by editing the rule object it has just handed to RuleManager.SetRule — which the manager
+// now serves as is — and setting it again; the manager compares the object with itself, trims the
+// update as a no-op and never writes it: the rule manager serves count 3, storage keeps count 5, a
+// restart loads 5.
+func TestFinding_replication_rollback_rule_not_persisted(t *testing.T) {
+	defer livesrv.Shutdown()
+	fx, err := livesrv.Get()
+	if err != nil {
+		t.Logf("fixture did not start: %v", err)
+		return
+	}
+	w := fx.SwapStorage()
+	defer fx.RestoreStorage()
+	if err := fx.ResetConfig(w); err != nil {
+		t.Logf("probe undecided: %v", err)
+		return
+	}
+	cfg := fx.Svr.GetReplicationConfig()
+	if !cfg.EnablePlacementRules || cfg.MaxReplicas == 5 {
+		t.Logf("probe undecided: base %s", mustJSON(cfg))
+		return
+	}
+	cfg.MaxReplicas = 5
+	w.FailNth(1) // the configuration write; the rule writes go to the cluster storage
+	e := fx.Svr.SetReplicationConfig(*cfg)
+	w.ResetCounters()
+	if e == nil || !strings.Contains(e.Error(), faultkv.ErrInjected.Error()) {
+		t.Logf("probe undecided: the update did not fail at its persist: %v", e)
+		fx.ResetConfig(w)
+		return
+	}
+	ra, _ := actualRule(fx)
+	rs, rerr := restartedRule(fx)
+	fx.ResetConfig(w)
+	if rerr != nil {
+		t.Logf("probe undecided: %v", rerr)
+		return
+	}
+	vkit.Finding(t, findingRollbackRule, ra != rs, fmt.Sprintf("SetReplicationConfig(max-replicas 5) with its configuration write failing: err=%v; max-replicas served %d; default rule served %v, loaded by a restarted rule manager %v", e, fx.Svr.GetReplicationConfig().MaxReplicas, ra, rs))
 }
